@@ -26,7 +26,10 @@ TREES = {
     "T4": {"x": [1]},
     "T5": {"c": [6, 7], "q": [2, 2, 2, 2]},
     "T6": {"c": [6, 7], "v": [5]},
+    # flatten order: the bias (excluded by rank rules) precedes the kernels
+    "T7": {"a_bias": [5], "kernel": [4, 3], "z": [3, 3]},
 }
+BF16_TREES = {"T1bf16": "T1", "T7bf16": "T7"}
 
 DS_OPTIONS = [
     ("graft_type", [0, 2, 3, 4, 5, 6]),
@@ -88,7 +91,6 @@ SM3_OPTIONS = [
 ]
 
 TF_OPTIONS = [
-    ("second_order_type", ["sketchy"]),
     ("block_size", [2, 3, 4]),
     ("merge_dims", [2, 4, 1]),
     ("update_preconditioners_freq", [2, 0]),
@@ -104,13 +106,24 @@ TF_OPTIONS = [
     ("weight_decay", [0.25]),
     ("weight_decay_after_momentum", [False]),
     ("learning_rate", [{"sched": "lin"}]),
-    ("sketchy_rank", [1, 3]),
+    ("min_dim_size_to_factor", [2]),
+]
+# Tearfree with Sketchy as the base (its own family, so that combinations of
+# two Sketchy options are within deviation 2)
+TFS_BASE = {"second_order_type": "sketchy", "sketchy_rank": 2}
+TFS_OPTIONS = [
+    ("sketchy_rank", [1, 3, 128]),
     ("relative_epsilon", [False]),
     ("sketchy_epsilon", [0.0]),
     ("add_ggt", [True]), ("ekfac_svd", [True]),
     ("linear_approx_tail", [True]),
     ("update_freq", [2]),
-    ("min_dim_size_to_factor", [2]),
+    ("merge_dims", [2, 4]),
+    ("second_moment_decay", [1.0, 0.0]),
+    ("grafting_type", ["none", "sgd"]),
+    ("skip_preconditioning_rank1", [False]),
+    ("start_preconditioning_step", [2]),
+    ("momentum_decay", [0.0]),
 ]
 
 
@@ -177,6 +190,21 @@ def plan(tier, seed):
       ["plain"], True, "k2",
       chunk=12)
   tf1 = deviations(TF_OPTIONS, 1)
+  tfs2 = [dict(TFS_BASE, **c) for c in deviations(TFS_OPTIONS, 2)]
+  add("tf", tfs2, ["T1", "T5"], ["plain"], False, "sketchy_k2")
+  add("tf", tfs2[:len(TFS_OPTIONS) + 8], ["T2", "T3"], ["plain"], True,
+      "sketchy_concrete", chunk=8)
+  # parameters that are not float32: update dtype and state layout
+  for fam, cfgs in (("ds", ds1[:1] + [{"graft_type": 3}]),
+                    ("sm3", [{}]), ("tf", [{}, dict(TFS_BASE)])):
+    add(fam, cfgs, list(BF16_TREES), ["plain"], False, "bf16")
+  add("ds", [{"skip_preconditioning_rank_lt": 2},
+             {"skip_preconditioning_rank_lt": 2,
+              "best_effort_shape_interpretation": False},
+             {"skip_preconditioning_dim_size_gt": 4},
+             {"skip_preconditioning_rank_lt": 2,
+              "best_effort_memory_usage_reduction": True}],
+      ["T7", "T2"], ["sharded", "plain", "batch"], False, "skipped_first")
   add("tf", tf1, ["T1", "T2", "T3", "T4", "T5"], ["plain"], False, "k1")
   add("tf", tf1, ["T1", "T5"], ["plain"], True, "k1_concrete", chunk=8)
   add("tf", deviations(TF_OPTIONS, 2)[len(tf1):],
@@ -260,6 +288,10 @@ def classify_exception(e):
 
 def make_params(tree):
   from mc import ds
+  if tree in BF16_TREES:
+    import jax.numpy as jnp
+    return {k: np.asarray(jnp.asarray(v).astype(jnp.bfloat16))
+            for k, v in ds.make_params(TREES[BF16_TREES[tree]]).items()}
   return ds.make_params(TREES[tree])
 
 
@@ -339,12 +371,14 @@ def check_item(acc, family, cfg, tree, transport, concrete):
   import jax.numpy as jnp
   from jax.sharding import Mesh, PartitionSpec as P
   sig = "C07|%s|%s|%s|%s" % (family, cname(cfg), tree, transport)
-  case = {"family": family, "cfg": cfg, "tree": tree, "shapes": TREES[tree],
+  case = {"family": family, "cfg": cfg, "tree": tree,
+          "shapes": TREES[BF16_TREES.get(tree, tree)],
           "transport": transport, "concrete": concrete}
   acc.states += 1
   if cfg:
     acc.nontrivial += 1
-  kf = {"family": family, "transport": transport}
+  kf = {"family": family, "transport": transport,
+        "param_dtype": "bfloat16" if tree in BF16_TREES else "float32"}
 
   def viol(kind, what):
     acc.outcome("viol_" + kind)
@@ -411,7 +445,21 @@ def check_item(acc, family, cfg, tree, transport, concrete):
                  "%s but declared as %s" % (i, want, got))
             break
         else:
-          acc.outcome("sharded_descriptions_agree")
+          # the static bookkeeping (which rows of the stacked statistics a
+          # parameter owns) is part of the tree structure
+          is_loc = lambda x: hasattr(x, "index_start") and hasattr(x, "sizes")
+          loc = lambda t: [(int(x.index_start), [int(s) for s in x.sizes])
+                           for x in jax.tree_util.tree_leaves(
+                               t.stats.local_stats, is_leaf=is_loc)
+                           if is_loc(x)]
+          l_state, l_sd, l_ps = loc(state), loc(sd), loc(ps)
+          if not (l_state == l_sd == l_ps):
+            viol("sharded_static_mismatch", "row bookkeeping (index_start, "
+                 "sizes) differs between the init state %s, the declared "
+                 "shapes %s and the partition specs %s" %
+                 (l_state, l_sd, l_ps))
+          else:
+            acc.outcome("sharded_descriptions_agree")
     except Exception as e:  # pylint: disable=broad-except
       reject("sharded_description", e)
   # ---- abstract transition -------------------------------------------
